@@ -28,7 +28,7 @@ REGISTRY = {
     'C13': dict(module='c13', level='proof', technique='global value numbering of weak_key_test + bit-level reading of its single decision term against the NIST characterisation',
                 quick=['x64', 'x64-soft-all'], thorough=['x64', 'x64-soft-all', 'x64-alt1', 'a64', 'a64-soft-all', 'x86']),
     'C05': dict(module='c05', level='other', technique='global value numbering of constructors and block functions with DES helpers as uninterpreted functions, compared with the SP 800-67 composition terms',
-                quick=['x64'], thorough=['x64', 'a64', 'x86']),
+                quick=['x64', 'x64-all'], thorough=['x64', 'x64-all', 'a64', 'x86']),
     'C01': dict(module='c01', level='other', technique='global value numbering (Herbrand terms + cancellation rewrites; GF(2)-affine bit-level normal form and truth-table lemmas for bitsliced S-boxes) over abstractly interpreted MIR: dec(enc(x)) == x as a term identity',
                 quick=['x64', 'x64-soft', 'x64-alt1', 'x64-alt2'], thorough=['x64', 'x64-soft', 'x64-alt1', 'x64-alt2', 'a64', 'x86', 'x86-soft-all']),
     'C18': dict(module='c18', level='other', technique='abstract interpretation of belt_wblock_enc/dec: every short length (store-free rejection), all lengths >= 32 at once with a relational (linear-term + interval) length; global value numbering against the reference round',
